@@ -1,8 +1,6 @@
 package c36
 
 import (
-	"testing/synctest"
-	"sync/atomic"
 	"context"
 	"errors"
 	"fmt"
@@ -11,7 +9,9 @@ import (
 	"sort"
 	"strings"
 	"sync"
+	"sync/atomic"
 	"testing"
+	"testing/synctest"
 
 	bifrost_rpc "github.com/aperturerobotics/bifrost/rpc"
 	access "github.com/aperturerobotics/bifrost/rpc/access"
@@ -133,9 +133,31 @@ type resCtrl struct {
 	// srpc.Invoker, i.e. not a provider of the service
 	foreign any
 
+	// filter, if set, restricts the controller to lookups with exactly this
+	// server id (a provider that serves one server id only)
+	filter *string
+	// multi: the controller may serve several lookup directives at once (one
+	// resolver handler per server id); events apply to all of them
+	multi  bool
+	hs     map[string]directive.ResolverHandler
+	valIDs map[string]uint32
+
 	mu    sync.Mutex
 	h     directive.ResolverHandler
 	valID uint32
+}
+
+// handlers returns the handlers of a multi controller in server-id order.
+func (c *resCtrl) handlers() (keys []string, hs map[string]directive.ResolverHandler) {
+	c.mu.Lock()
+	defer c.mu.Unlock()
+	hs = map[string]directive.ResolverHandler{}
+	for k, h := range c.hs {
+		keys = append(keys, k)
+		hs[k] = h
+	}
+	sort.Strings(keys)
+	return keys, hs
 }
 
 func (c *resCtrl) GetControllerInfo() *controller.Info {
@@ -144,8 +166,11 @@ func (c *resCtrl) GetControllerInfo() *controller.Info {
 func (c *resCtrl) Execute(ctx context.Context) error { return nil }
 func (c *resCtrl) Close() error                      { return nil }
 func (c *resCtrl) HandleDirective(ctx context.Context, di directive.Instance) ([]directive.Resolver, error) {
-	if _, ok := di.GetDirective().(bifrost_rpc.LookupRpcService); ok {
-		return directive.R(&resRes{c}, nil)
+	if d, ok := di.GetDirective().(bifrost_rpc.LookupRpcService); ok {
+		if c.filter != nil && d.LookupRpcServerID() != *c.filter {
+			return nil, nil
+		}
+		return directive.R(&resRes{c, d.LookupRpcServerID()}, nil)
 	}
 	return nil, nil
 }
@@ -155,11 +180,20 @@ func (c *resCtrl) handler() directive.ResolverHandler {
 	return c.h
 }
 
-type resRes struct{ c *resCtrl }
+type resRes struct {
+	c      *resCtrl
+	server string
+}
 
 func (r *resRes) Resolve(ctx context.Context, h directive.ResolverHandler) error {
 	r.c.mu.Lock()
 	r.c.h = h
+	if r.c.multi {
+		if r.c.hs == nil {
+			r.c.hs, r.c.valIDs = map[string]directive.ResolverHandler{}, map[string]uint32{}
+		}
+		r.c.hs[r.server] = h
+	}
 	r.c.mu.Unlock()
 	if r.c.startIdle {
 		h.MarkIdle(true)
@@ -190,6 +224,11 @@ type scenario struct {
 	// is attached to it and a resolver is still busy: the server's directive
 	// is de-duplicated onto it and the provider is replayed synchronously.
 	joinExisting bool
+	// otherServer: the remote request is (svc, "") - no server id - while a
+	// lookup for (svc, "srv") is already referenced on the bus. Provider 1
+	// serves server id "srv" only, so it is no provider for the remote
+	// request; provider 2 and the idler serve every lookup.
+	otherServer bool
 }
 
 type sys struct {
@@ -204,12 +243,12 @@ type sys struct {
 	done       chan struct{}
 	retErr     error
 
-	prov  []*resCtrl // resolver-level providers
+	prov   []*resCtrl // resolver-level providers
 	preRef directive.Reference
-	forn  *resCtrl   // resolver attaching a non-invoker value
-	hasF  bool
-	rels  []func()   // controller-level providers: release funcs (nil = absent)
-	idler *resCtrl
+	forn   *resCtrl // resolver attaching a non-invoker value
+	hasF   bool
+	rels   []func() // controller-level providers: release funcs (nil = absent)
+	idler  *resCtrl
 
 	// model
 	has       []bool
@@ -243,6 +282,14 @@ func newSys(sc scenario) *sys {
 	if !sc.ctrlLevel {
 		for i := 0; i < sc.nprov; i++ {
 			p := &resCtrl{name: fmt.Sprintf("p%d", i+1), startIdle: true, val: &nopInvoker{fmt.Sprintf("p%d", i+1)}}
+			if sc.otherServer {
+				if i == 0 {
+					only := "srv"
+					p.filter = &only
+				} else {
+					p.multi = true
+				}
+			}
 			s.prov = append(s.prov, p)
 			add(p)
 		}
@@ -251,7 +298,7 @@ func newSys(sc scenario) *sys {
 		s.forn = &resCtrl{name: "foreign", startIdle: true, foreign: "not-an-invoker"}
 		add(s.forn)
 	}
-	s.idler = &resCtrl{name: "idler", startIdle: sc.idlerStartsIdle}
+	s.idler = &resCtrl{name: "idler", startIdle: sc.idlerStartsIdle, multi: sc.otherServer}
 	s.idle = sc.idlerStartsIdle
 	if s.idle {
 		s.wantIdle = append(s.wantIdle, "I1")
@@ -278,12 +325,22 @@ func newSys(sc scenario) *sys {
 		s.wantER = append(s.wantER, "E")
 		synctest.Wait()
 	}
+	reqServer := "srv"
+	if sc.otherServer {
+		_, ref, err := b.AddDirective(bifrost_rpc.NewLookupRpcService("svc", "srv"), nil)
+		if err != nil {
+			evid.Fatal("AddDirective (lookup for the other server id): %v", err)
+		}
+		s.preRef = ref
+		synctest.Wait()
+		reqServer = ""
+	}
 	var sctx context.Context
 	sctx, s.strmCancel = context.WithCancel(s.ctx)
 	s.strm = &recStream{ctx: sctx, held: sc.backpressure, gate: make(chan struct{})}
 	s.done = make(chan struct{})
 	srv := access.NewAccessRpcServiceServer(b, false, nil)
-	req := access.NewLookupRpcServiceRequest("svc", "srv")
+	req := access.NewLookupRpcServiceRequest("svc", reqServer)
 	go func() {
 		defer close(s.done)
 		s.retErr = srv.LookupRpcService(req, s.strm)
@@ -293,8 +350,8 @@ func newSys(sc scenario) *sys {
 
 func (s *sys) count() int {
 	n := 0
-	for _, h := range s.has {
-		if h {
+	for i, h := range s.has {
+		if h && !(s.sc.otherServer && i == 0) {
 			n++
 		}
 	}
@@ -389,11 +446,32 @@ func (s *sys) Apply(ev string) {
 		} else {
 			p := s.prov[i]
 			h := p.handler()
-			if h == nil {
+			if p.multi {
+				keys, hs := p.handlers()
+				if len(keys) == 0 {
+					s.infra = append(s.infra, "provider resolver not running")
+					return
+				}
+				for _, k := range keys {
+					if adding {
+						id, ok := hs[k].AddValue(p.val)
+						if !ok {
+							s.infra = append(s.infra, "AddValue rejected")
+							return
+						}
+						p.valIDs[k] = id
+					} else if _, ok := hs[k].RemoveValue(p.valIDs[k]); !ok {
+						s.infra = append(s.infra, "RemoveValue: not found")
+						return
+					}
+				}
+			} else if h == nil {
 				s.infra = append(s.infra, "provider resolver not running")
 				return
 			}
-			if adding {
+			if p.multi {
+				// done above
+			} else if adding {
 				id, ok := h.AddValue(p.val)
 				if !ok {
 					s.infra = append(s.infra, "AddValue rejected")
@@ -424,7 +502,14 @@ func (s *sys) Apply(ev string) {
 			return
 		}
 		s.idle = ev == "idle"
-		h.MarkIdle(s.idle)
+		if s.idler.multi {
+			keys, hs := s.idler.handlers()
+			for _, k := range keys {
+				hs[k].MarkIdle(s.idle)
+			}
+		} else {
+			h.MarkIdle(s.idle)
+		}
 		if !s.cancelled {
 			if s.idle {
 				s.wantIdle = append(s.wantIdle, "I1")
@@ -790,6 +875,7 @@ func TestC36(t *testing.T) {
 		{name: "resolver-provider/plus-non-invoker-value", nprov: 1, foreign: true},
 		{name: "resolver-providers/lookup-joins-existing-busy-directive", nprov: 2, joinExisting: true},
 		{name: "resolver-providers/lookup-joins-existing-idle-directive", nprov: 2, joinExisting: true, idlerStartsIdle: true},
+		{name: "resolver-providers/request-without-server-id-while-lookup-for-a-server-id-runs", nprov: 2, otherServer: true, idlerStartsIdle: true},
 	}
 	if !run.Quick() {
 		depth = 12
